@@ -449,23 +449,75 @@ func verifC42UintValue(b []byte) uint64 {
 	return x
 }
 
-func verifC42FillAddr(t *lruTable[addressValue]) {
-	for i := range t.buckets {
-		for j := range t.buckets[i].slots {
-			vr.Fill("snd.table", t.buckets[i].slots[j][:])
-		}
+// The stateful harnesses keep the number of symbolic bytes small (the engine's
+// cost per solver call grows with it): a field is a fixed position-dependent
+// pattern with symbolic bytes at the listed positions - always the first and
+// last byte and every byte whose low bits select the hash bucket. The code under
+// test moves and compares these fields as whole arrays, never bytewise.
+func verifC42Sparse(label string, p []byte, sym ...int) {
+	for i := range p {
+		p[i] = byte(i*37 + 11)
 	}
-	vr.Fill("snd.mru", t.mru)
+	for _, i := range sym {
+		p[i] = vr.U8(label)
+	}
 }
 
-func verifC42FillPk(label string, t *lruTable[pkSigPair]) {
-	for i := range t.buckets {
-		for j := range t.buckets[i].slots {
-			vr.Fill(label, t.buckets[i].slots[j].pk[:])
-			vr.Fill(label, t.buckets[i].slots[j].sig[:])
-		}
+func verifC42SparseAddr(label string, a *addressValue) {
+	verifC42Sparse(label, a[:], 0, 8, 16, 24, 31)
+}
+
+func verifC42SparsePk(label string, k *pkSigPair) {
+	verifC42Sparse(label, k.pk[:], 0, 31)
+	verifC42Sparse(label, k.sig[:], 0, 63)
+}
+
+// a stateless-compressed vote with sparse symbolic contents
+func verifC42SparseVote(mask uint8, forms [4]int) *verifC42Vote {
+	v := &verifC42Vote{mask: mask}
+	verifC42Sparse("pf", v.pf[:], 0, 79)
+	v.rnd = verifC42UintCanonical("rnd", forms[0])
+	if mask&bitPer != 0 {
+		v.per = verifC42Uint("per", forms[1])
 	}
-	vr.Fill(label+".mru", t.mru)
+	if mask&bitStep != 0 {
+		v.step = verifC42Uint("step", forms[2])
+	}
+	if mask&bitOper != 0 {
+		v.oper = verifC42Uint("oper", forms[3])
+	}
+	if mask&bitDig != 0 {
+		verifC42Sparse("dig", v.dig[:], 0, 31)
+	}
+	if mask&bitEncDig != 0 {
+		verifC42Sparse("encdig", v.encdig[:], 0, 31)
+	}
+	if mask&bitOprop != 0 {
+		verifC42Sparse("oprop", v.oprop[:], 0, 31)
+	}
+	var a addressValue
+	verifC42SparseAddr("snd", &a)
+	v.snd = a
+	var k pkSigPair
+	verifC42SparsePk("pk", &k)
+	v.p, v.p1s = k.pk, k.sig
+	verifC42SparsePk("pk2", &k)
+	v.p2, v.p2s = k.pk, k.sig
+	verifC42Sparse("s", v.s[:], 0, 63)
+	return v
+}
+
+// a vote whose table keys are fixed non-zero constants (LRU part concrete)
+func verifC42ConcreteKeys(v *verifC42Vote) {
+	for i := range v.snd {
+		v.snd[i] = byte(i + 1)
+		v.p[i] = byte(i + 2)
+		v.p2[i] = byte(i + 3)
+	}
+	for i := range v.p1s {
+		v.p1s[i] = byte(i + 4)
+		v.p2s[i] = byte(i + 5)
+	}
 }
 
 // o := s
@@ -496,14 +548,6 @@ func verifC42SameLRU[K comparable](a, b *lruTable[K]) bool {
 func verifC42SameState(a, b *dynamicTableState) bool {
 	return verifC42SameLRU(a.sndTable, b.sndTable) && verifC42SameLRU(a.pkTable, b.pkTable) &&
 		verifC42SameLRU(a.pk2Table, b.pk2Table) && a.proposalWindow == b.proposalWindow && a.lastRnd == b.lastRnd
-}
-
-// verifC42Bucket case-splits on the bucket a key hashes to (all buckets are
-// explored, one path each) so that the table is indexed concretely on each path.
-// It only partitions the inputs; it assumes nothing.
-func verifC42Bucket[K comparable](t *lruTable[K], h uint64) int {
-	b := t.hashToBucketIndex(h)
-	return len(make([]struct{}, int(b)))
 }
 
 // the step itself and everything asserted about it
@@ -569,34 +613,343 @@ func verifC42NewPair() (*StatefulEncoder, *StatefulDecoder) {
 	return enc, dec
 }
 
-// Arbitrary equal LRU tables and lastRnd; window empty. The bucket the sender
-// hashes to is enumerated (8 paths); the (p,p1s) and (p2,p2s) keys are taken
-// from the same bucket number of their own tables (the tables are separate
-// objects running the same generic code: each sees every bucket).
+var verifC42Masks = []uint8{bitDig | bitEncDig | bitOprop | bitStep, 63, 0, bitPer | bitOper}
+
+// LRU tables. For every bucket b (one path each):
+// the two slots of bucket b and the MRU bits are arbitrary in all three tables
+// (the other buckets hold fixed values; a key only ever touches the bucket it
+// hashes to). The vote's sender, (p,p1s) and (p2,p2s) hash to bucket b: the
+// bytes that enter the hash are fixed accordingly (so that the bucket number
+// and the 2-byte references are concrete), the other bytes of the pairs are
+// arbitrary. Whether a key is found in slot 0, in slot 1 or not at all, and
+// which slot is then evicted, is decided by the arbitrary slots and MRU bits.
+// Window empty, lastRnd = the vote's round.
 //
-//verif:harness prop=C42 reach=done,prop-literal,snd-ref,snd-literal,pk-ref,pk-literal,pk2-ref,pk2-literal,rnd-same,rnd-plus,rnd-minus,rnd-literal unwind=16 budget=220 thorough.budget=2400 thorough.paths=400000
+//verif:harness prop=C42 reach=done,prop-literal,snd-ref,snd-literal,pk-ref,pk-literal,pk2-ref,pk2-literal,rnd-same unwind=16 budget=280 thorough.budget=2400
 func VerifC42StatefulStepTables() {
 	enc, dec := verifC42NewPair()
 	s := &enc.dynamicTableState
-	verifC42FillAddr(s.sndTable)
-	verifC42FillPk("pk.table", s.pkTable)
-	verifC42FillPk("pk2.table", s.pk2Table)
-	s.lastRnd = vr.U64("lastRnd")
+	b := vr.Choice("bucket", int(s.sndTable.numBuckets))
+	for i := range s.sndTable.buckets {
+		for j := 0; j < 2; j++ {
+			if i == b {
+				verifC42SparseAddr("snd.table", &s.sndTable.buckets[i].slots[j])
+				verifC42Sparse("pk.table", s.pkTable.buckets[i].slots[j].pk[:], 0, 31)
+				verifC42Sparse("pk.table", s.pkTable.buckets[i].slots[j].sig[:], 0, 63)
+				verifC42Sparse("pk2.table", s.pk2Table.buckets[i].slots[j].pk[:], 0, 31)
+				verifC42Sparse("pk2.table", s.pk2Table.buckets[i].slots[j].sig[:], 0, 63)
+			} else {
+				s.sndTable.buckets[i].slots[j][1] = byte(0x80 + 2*i + j)
+				s.pkTable.buckets[i].slots[j].pk[1] = byte(0x80 + 2*i + j)
+				s.pk2Table.buckets[i].slots[j].sig[1] = byte(0x80 + 2*i + j)
+			}
+		}
+	}
+	vr.Fill("snd.mru", s.sndTable.mru)
+	vr.Fill("pk.mru", s.pkTable.mru)
+	vr.Fill("pk2.mru", s.pk2Table.mru)
+
+	v := verifC42SparseVote(verifC42Masks[vr.Choice("mask", vr.Param(1, 4))], [4]int{vr.Choice("rndform", vr.Param(1, 2)) * 4, 1, 0, 2})
+	// keys hashing to bucket b: fixed hash bytes, first byte chosen to land in b
+	verifC42Sparse("-", v.snd[:])
+	verifC42Sparse("pk", v.p[:], 31)
+	verifC42Sparse("pk", v.p1s[:], 63)
+	verifC42Sparse("pk2", v.p2[:], 31)
+	verifC42Sparse("pk2", v.p2s[:], 63)
+	snd := addressValue(v.snd)
+	v.snd[0] ^= byte(snd.hash()&7) ^ byte(b)
+	pk := pkSigPair{pk: v.p, sig: v.p1s}
+	v.p[0] ^= byte(pk.hash()&7) ^ byte(b)
+	pk2 := pkSigPair{pk: v.p2, sig: v.p2s}
+	v.p2[0] ^= byte(pk2.hash()&7) ^ byte(b)
+	s.lastRnd = verifC42UintValue(v.rnd)
 	verifC42CopyState(&dec.dynamicTableState, s)
 
-	v := &verifC42Vote{}
-	masks := []uint8{bitDig | bitEncDig | bitOprop | bitStep, 0, 63, bitPer | bitOper}
-	v.mask = masks[vr.Choice("mask", vr.Param(1, 4))]
-	verifC42FillVote(v, [4]int{vr.Choice("rndform", 5), 1, 0, 2}, true)
-
-	snd := addressValue(v.snd)
-	b := verifC42Bucket(s.sndTable, snd.hash())
-	pk := pkSigPair{pk: v.p, sig: v.p1s}
-	pk2 := pkSigPair{pk: v.p2, sig: v.p2s}
-	vr.Assume(int(s.pkTable.hashToBucketIndex(pk.hash())) == b)
-	vr.Assume(int(s.pk2Table.hashToBucketIndex(pk2.hash())) == b)
-	verifC42Bucket(s.pkTable, pk.hash())
-	verifC42Bucket(s.pk2Table, pk2.hash())
-
 	verifC42Step(enc, dec, v)
+}
+
+// Round delta encoding: lastRnd arbitrary, the vote's round arbitrary in each
+// of the five canonical encodings; tables fresh, window empty.
+//
+//verif:harness prop=C42 reach=done,rnd-same,rnd-plus,rnd-minus,rnd-literal unwind=16 budget=100 thorough.budget=600
+func VerifC42StatefulStepRound() {
+	enc, dec := verifC42NewPair()
+	enc.lastRnd = vr.U64("lastRnd")
+	dec.lastRnd = enc.lastRnd
+	v := verifC42SparseVote(verifC42Masks[vr.Choice("mask", vr.Param(1, 4))], [4]int{vr.Choice("rndform", 5), 1, 0, 2})
+	verifC42ConcreteKeys(v)
+	verifC42Step(enc, dec, v)
+}
+
+// Proposal window: every head 0..6 (quick tier: 0, 3, 6) and size 0..7, arbitrary entries, arbitrary
+// proposal in the vote; tables fresh, lastRnd = the vote's round.
+//
+//verif:harness prop=C42 reach=done,prop-ref,prop-literal,window-evicts,window-wraps,bottom-ref unwind=16 budget=280 thorough.budget=2400
+func VerifC42StatefulStepWindow() {
+	enc, dec := verifC42NewPair()
+	w := &enc.proposalWindow
+	if vr.Param(0, 1) == 0 {
+		w.head = []int{0, 3, 6}[vr.Choice("win.head", 3)] // quick tier
+	} else {
+		w.head = vr.Choice("win.head", proposalWindowSize)
+	}
+	w.size = vr.Choice("win.size", proposalWindowSize+1)
+	// digests: zero except a symbolic first and last byte (zero background so
+	// that the empty proposal of a bottom vote can be in the window as well)
+	ends := func(label string, p *[digestSize]byte) {
+		*p = [digestSize]byte{}
+		p[0], p[digestSize-1] = vr.U8(label), vr.U8(label)
+	}
+	for i := range w.entries {
+		e := &w.entries[i]
+		ends("win.dig", &e.dig)
+		ends("win.encdig", &e.encdig)
+		ends("win.oprop", &e.oprop)
+		e.operEnc[0], e.operEnc[1], e.operEnc[2] = vr.U8("win.oper"), vr.U8("win.oper"), vr.U8("win.oper")
+		e.operLen = vr.U8("win.operlen")
+		e.mask = vr.U8("win.mask")
+	}
+	v := verifC42SparseVote(verifC42Masks[vr.Choice("mask", vr.Param(3, 4))], [4]int{0, 1, 0, 2})
+	if v.mask&bitDig != 0 {
+		ends("dig", &v.dig)
+	}
+	if v.mask&bitEncDig != 0 {
+		ends("encdig", &v.encdig)
+	}
+	if v.mask&bitOprop != 0 {
+		ends("oprop", &v.oprop)
+	}
+	verifC42ConcreteKeys(v)
+	enc.lastRnd = verifC42UintValue(v.rnd)
+	verifC42CopyState(&dec.dynamicTableState, &enc.dynamicTableState)
+	if w.size == proposalWindowSize {
+		vr.Reach("window-evicts")
+	}
+	if w.head+w.size > proposalWindowSize {
+		vr.Reach("window-wraps")
+	}
+	verifC42Step(enc, dec, v)
+	if v.mask&propFieldsMask == 0 && enc.proposalWindow.size == w.size && w.size < proposalWindowSize {
+		vr.Reach("bottom-ref") // the empty proposal was found in the window (nothing inserted)
+	}
+}
+
+// canonical (shortest) msgpack encoding of x (reference encoder)
+func verifC42EncodeUint(x uint64) []byte {
+	switch {
+	case x < 1<<7:
+		return []byte{byte(x)}
+	case x < 1<<8:
+		return []byte{msgpUint8, byte(x)}
+	case x < 1<<16:
+		return []byte{msgpUint16, byte(x >> 8), byte(x)}
+	case x < 1<<32:
+		return []byte{msgpUint32, byte(x >> 24), byte(x >> 16), byte(x >> 8), byte(x)}
+	}
+	return []byte{msgpUint64, byte(x >> 56), byte(x >> 48), byte(x >> 40), byte(x >> 32), byte(x >> 24), byte(x >> 16), byte(x >> 8), byte(x)}
+}
+
+// Arbitrary stateful input to the decoder: no crash, invalid references are
+// rejected, and what is accepted decodes to exactly the values the references
+// denote in the receiver's state (reference decoder written here).
+// State: tables with fixed pairwise different contents, a window of size 3 or,
+// for proposal references, any size 0..7 (head 5, so that it wraps) with fixed different entries, lastRnd
+// arbitrary. Input: assembled from pieces; each dimension of the second header
+// byte is enumerated completely, the others at "literal" meanwhile:
+//
+//	proposal reference 0..7 (against every window size),
+//	round encoding literal / +1 / -1 / same (lastRnd arbitrary: overflow, underflow),
+//	sender / (p,p1s) / (p2,p2s) as 16-bit table references with ARBITRARY ids,
+//
+// each with the exact length, one byte short and one byte long.
+//
+//verif:harness prop=C42 reach=done,accepted,bad-prop-ref,bad-table-ref,round-overflow,round-underflow,truncated,trailing unwind=16 budget=280 thorough.budget=2400
+func VerifC42StatefulDecodeArbitrary() {
+	_, dec := verifC42NewPair()
+	s := &dec.dynamicTableState
+	for i := range s.sndTable.buckets {
+		for j := 0; j < 2; j++ {
+			tag := byte(0x80 + 2*i + j)
+			verifC42Sparse("-", s.sndTable.buckets[i].slots[j][:])
+			s.sndTable.buckets[i].slots[j][1] = tag
+			verifC42Sparse("-", s.pkTable.buckets[i].slots[j].pk[:])
+			verifC42Sparse("-", s.pkTable.buckets[i].slots[j].sig[:])
+			s.pkTable.buckets[i].slots[j].pk[1] = tag
+			verifC42Sparse("-", s.pk2Table.buckets[i].slots[j].pk[:])
+			verifC42Sparse("-", s.pk2Table.buckets[i].slots[j].sig[:])
+			s.pk2Table.buckets[i].slots[j].sig[1] = tag
+		}
+	}
+	w := &s.proposalWindow
+	w.head = 5
+	w.size = 3 // every size in the proposal-reference dimension below
+	for i := range w.entries {
+		e := &w.entries[i]
+		e.mask = verifC42Masks[i%4] & propFieldsMask
+		verifC42Sparse("-", e.dig[:])
+		verifC42Sparse("-", e.encdig[:])
+		verifC42Sparse("-", e.oprop[:])
+		e.dig[1], e.encdig[1], e.oprop[1] = byte(i), byte(i), byte(i)
+		if e.mask&bitOper != 0 {
+			e.operEnc[0], e.operEnc[1], e.operLen = msgpUint8, byte(0x90+i), 2
+		}
+	}
+	lastRnd := vr.U64("lastRnd")
+	s.lastRnd = lastRnd
+
+	// the input
+	propRef, rndMode, refs := 0, int(hdr1RndLiteral), 0
+	switch vr.Choice("dimension", 3) {
+	case 0:
+		propRef = vr.Choice("propref", 8)
+		w.size = vr.Choice("win.size", proposalWindowSize+1)
+	case 1:
+		rndMode = 1 + vr.Choice("rndmode", 3)
+	case 2:
+		refs = []int{1, 2, 4, 7}[vr.Choice("refs", 4)] // bit 0 snd, bit 1 pk, bit 2 pk2
+	}
+	v := verifC42SparseVote(verifC42Masks[vr.Choice("mask", vr.Param(1, 2))], [4]int{vr.Choice("rndform", vr.Param(1, 5)) * vr.Param(2, 1), 1, 0, 2})
+	hdr1 := byte(rndMode) | byte(propRef)<<hdr1PropShift
+	var sndID, pkID, pk2ID uint16
+	in := []byte{v.mask, 0}
+	in = append(in, v.pf[:]...)
+	in = append(in, v.per...)
+	if propRef == 0 {
+		if v.mask&bitDig != 0 {
+			in = append(in, v.dig[:]...)
+		}
+		if v.mask&bitEncDig != 0 {
+			in = append(in, v.encdig[:]...)
+		}
+		in = append(in, v.oper...)
+		if v.mask&bitOprop != 0 {
+			in = append(in, v.oprop[:]...)
+		}
+	}
+	if rndMode == int(hdr1RndLiteral) {
+		in = append(in, v.rnd...)
+	}
+	if refs&1 != 0 {
+		hdr1 |= hdr1SndRef
+		sndID = vr.U16("snd.id")
+		in = append(in, byte(sndID>>8), byte(sndID))
+	} else {
+		in = append(in, v.snd[:]...)
+	}
+	in = append(in, v.step...)
+	if refs&2 != 0 {
+		hdr1 |= hdr1PkRef
+		pkID = vr.U16("pk.id")
+		in = append(in, byte(pkID>>8), byte(pkID))
+	} else {
+		in = append(in, v.p[:]...)
+		in = append(in, v.p1s[:]...)
+	}
+	if refs&4 != 0 {
+		hdr1 |= hdr1Pk2Ref
+		pk2ID = vr.U16("pk2.id")
+		in = append(in, byte(pk2ID>>8), byte(pk2ID))
+	} else {
+		in = append(in, v.p2[:]...)
+		in = append(in, v.p2s[:]...)
+	}
+	in = append(in, v.s[:]...)
+	in[1] = hdr1
+	lengthCase := vr.Choice("length", 3)
+	switch lengthCase {
+	case 0:
+		in = in[:len(in)-1]
+	case 2:
+		in = append(in, vr.U8("extra"))
+	}
+	exact := lengthCase == 1
+
+	// reference decoder: is the input valid, and what does it denote
+	valid := exact
+	want := &verifC42Vote{mask: v.mask, pf: v.pf, per: v.per, step: v.step, s: v.s}
+	want.rnd, want.snd, want.p, want.p1s, want.p2, want.p2s = v.rnd, v.snd, v.p, v.p1s, v.p2, v.p2s
+	wantMask := v.mask & propFieldsMask // fields of the proposal that follow in the output
+	want.dig, want.encdig, want.oper, want.oprop = v.dig, v.encdig, v.oper, v.oprop
+	if propRef != 0 {
+		if propRef > w.size {
+			valid = false
+			vr.Reach("bad-prop-ref")
+		} else {
+			// index 1 is the newest entry, index size the oldest (at head)
+			e := w.entries[(w.head+w.size-propRef)%proposalWindowSize]
+			wantMask = e.mask
+			want.dig, want.encdig, want.oprop, want.oper = e.dig, e.encdig, e.oprop, e.operEnc[:e.operLen]
+		}
+	}
+	wantRnd := verifC42UintValue(v.rnd)
+	switch rndMode {
+	case int(hdr1RndDeltaSame):
+		wantRnd = lastRnd
+	case int(hdr1RndDeltaPlus1):
+		if lastRnd == ^uint64(0) {
+			valid = false
+			vr.Reach("round-overflow")
+		}
+		wantRnd = lastRnd + 1
+	case int(hdr1RndDeltaMinus1):
+		if lastRnd == 0 {
+			valid = false
+			vr.Reach("round-underflow")
+		}
+		wantRnd = lastRnd - 1
+	}
+	if rndMode != int(hdr1RndLiteral) {
+		want.rnd = verifC42EncodeUint(wantRnd)
+	}
+	nIDs := uint16(2 * s.sndTable.numBuckets)
+	if refs&1 != 0 {
+		if sndID >= nIDs {
+			valid = false
+			vr.Reach("bad-table-ref")
+		} else {
+			want.snd = s.sndTable.buckets[sndID>>1].slots[sndID&1]
+		}
+	}
+	if refs&2 != 0 {
+		if pkID >= nIDs {
+			valid = false
+			vr.Reach("bad-table-ref")
+		} else {
+			k := s.pkTable.buckets[pkID>>1].slots[pkID&1]
+			want.p, want.p1s = k.pk, k.sig
+		}
+	}
+	if refs&4 != 0 {
+		if pk2ID >= nIDs {
+			valid = false
+			vr.Reach("bad-table-ref")
+		} else {
+			k := s.pk2Table.buckets[pk2ID>>1].slots[pk2ID&1]
+			want.p2, want.p2s = k.pk, k.sig
+		}
+	}
+
+	out, err := dec.Decompress(make([]byte, 0, MaxCompressedVoteSize), in) // a panic here is a violation
+
+	vr.Assert("c42.stateful.decode.accepts-exactly-valid", (err == nil) == valid)
+	if err != nil {
+		vr.Assert("c42.stateful.decode.no-output-on-error", out == nil)
+		if lengthCase == 0 {
+			vr.Reach("truncated")
+		} else if lengthCase == 2 {
+			vr.Reach("trailing")
+		}
+		vr.Reach("done")
+		return
+	}
+	vr.Reach("accepted")
+	// the output is the stateless-packed form of exactly the denoted values:
+	// header {mask, 0}; proposal fields as the referenced entry has them
+	exp := verifC42Packed(&verifC42Vote{mask: v.mask&^propFieldsMask | wantMask, pf: want.pf, per: want.per, oper: want.oper,
+		rnd: want.rnd, step: want.step, dig: want.dig, encdig: want.encdig, oprop: want.oprop, snd: want.snd,
+		p: want.p, p2: want.p2, p1s: want.p1s, p2s: want.p2s, s: want.s})
+	exp[0] = v.mask // the header keeps the sender's mask
+	vr.Assert("c42.stateful.decode.output-is-denoted-vote", verifC42Same(out, exp))
+	vr.Assert("c42.stateful.decode.lastrnd", dec.lastRnd == wantRnd)
+	vr.Reach("done")
 }
